@@ -1,0 +1,16 @@
+//go:build verif
+
+package decoration
+
+// VerifHook, when set (before any concurrent use), is called from inside the
+// registry's critical sections: after the state change or lookup, while the
+// registry lock is still held. It exists only in builds with the "verif" tag
+// and is used by the external verification harness to observe the order in
+// which registry operations take effect.
+var VerifHook func(event, name string)
+
+func verifEvent(event, name string) {
+	if h := VerifHook; h != nil {
+		h(event, name)
+	}
+}
